@@ -86,6 +86,23 @@ def mutants(stmts, rng, quick):
                     w.text = s.text + " extraN"
                     out.append(("surplus_end_name:" + s.kind, "line %d %r -> %r" % (i + 1, s.text, w.text),
                                 stmts[:i] + [w] + stmts[i + 1:]))
+    # ---- an END statement of the wrong kind (the construct is not terminated by its own END)
+    END_SWAP = {"end if": "end do", "end do": "end if", "end select": "end if", "end where": "end do",
+                "end forall": "end where", "end associate": "end block", "end block": "end associate",
+                "end critical": "end if", "end subroutine": "end function", "end function": "end subroutine",
+                "end module": "end program", "end type": "end interface", "end interface": "end type",
+                "end enum": "end type"}
+    for i, s in enumerate(stmts):
+        if s.role == "close" and s.label is None:
+            low = " ".join(s.text.lower().split())
+            two = " ".join(low.split()[:2])
+            if two in END_SWAP:
+                w = s.copy()
+                w.text = " ".join(END_SWAP[two].split() + s.text.split()[2:])
+                out.append(("wrong_end_keyword:" + s.kind, "line %d %r -> %r" % (i + 1, s.text, w.text),
+                            stmts[:i] + [w] + stmts[i + 1:]))
+    # (Outside the property as stated, hence not checked: a second ELSE / CASE DEFAULT / CONTAINS in one construct
+    #  and ELSE before ELSE IF are accepted by the pinned parser.)
     # parentheses, per statement that has any: the first '(' and the last ')' deleted, each of them doubled,
     # plus one random deletion and one random doubling
     for i, s in enumerate(stmts):
